@@ -16,4 +16,7 @@ Extraction "m.ml" trim_collinear simplify_path rdp_path rdp_path_flags strip_dup
   perp_d2 is_collinear sublistb path_eqb keeps_ends no_cyc_dup no_reversal no_cyc_collinear corners_or_empty
   simplify_fixed_f rdp_bad_f  area2 Z2F fsqr fadd fsub fmul fdiv fsqrt pt_eqb near_equal std_unique
   no_lin_dup no_lin_reversal no_lin_collinear bbox_of collect cross eps_sqr_ge_max
-  strip_near_equal_d near_equal_d strip_near_equal_paths strip_near_equal_paths_d strip_duplicates_paths.
+  strip_near_equal_d near_equal_d strip_near_equal_paths strip_near_equal_paths_d strip_duplicates_paths
+  ptd_eqb perp_d2_d simplify_path_d rdp_path_d rdp_path_flags_d strip_duplicates_d translate_path_d transform_path_di
+  transform_path_id trim_collinear_d simplify_paths simplify_paths_d rdp_paths rdp_paths_d strip_duplicates_paths_d
+  ellipse_rect_i ellipse_rect_radii_i ellipse_rect_d ellipse_rect_radii_d simplify_fixed_d rdp_bad_d.
